@@ -32,6 +32,8 @@ type session struct {
 	medi  *description.Media
 	forma format.Format
 	ch    chan *unit.Unit
+
+	panicked string // set when WriteUnit panicked
 }
 
 func newSession(forma format.Format) *session {
@@ -59,7 +61,12 @@ func newSession(forma format.Format) *session {
 // (nothing reaches the readers).
 func (s *session) write(p unit.Payload, pts int64) *unit.Unit {
 	before := s.strm.InboundFramesInError()
-	s.sub.WriteUnit(s.medi, s.forma, &unit.Unit{PTS: pts, Payload: p})
+	if pv, stack := vcommon.Recover(func() {
+		s.sub.WriteUnit(s.medi, s.forma, &unit.Unit{PTS: pts, Payload: p})
+	}); pv != nil {
+		s.panicked = fmt.Sprintf("%v\n%s", pv, stack)
+		return nil
+	}
 	if s.strm.InboundFramesInError() != before {
 		return nil
 	}
